@@ -18,7 +18,15 @@ func (p pathAbort) with(v *Violation) pathAbortV {
 	return pathAbortV{p, v}
 }
 
-const repoDir = "/repo"
+// repoDir is the tree that is checked: /repo, always, for the registered commands.
+// VERIF_REPO redirects it to a scratch worktree and is used only by tools/try_seed.sh
+// to try seeded changes without touching /repo.
+var repoDir = func() string {
+	if d := os.Getenv("VERIF_REPO"); d != "" {
+		return d
+	}
+	return "/repo"
+}()
 
 // LoadProgram loads the given package patterns of /repo with the harness
 // overlay (files under harnessDir mirrored into the package directories).
@@ -91,6 +99,7 @@ type PathStats struct {
 	Completed    int
 	Infeasible   int
 	Steps        int
+	MaxGap       int // most instructions any path executed between two signs of progress (cf. livelock)
 	Asserts      map[string]int
 	AssertsTotal int
 	Covers       map[string]int
@@ -203,6 +212,9 @@ func Explore(P *Program, pkg *ssa.Package, spec HarnessSpec, nworkers int, solve
 				mu.Lock()
 				active--
 				st.Steps += res.steps
+				if res.maxGap > st.MaxGap {
+					st.MaxGap = res.maxGap
+				}
 				st.Unknowns += res.unknowns
 				st.OverflowObl += res.overflowObl
 				st.AssertsTotal += res.assertsTotal
@@ -280,6 +292,7 @@ type pathResult struct {
 	stubs        map[string]int
 	unknowns     int
 	overflowObl  int
+	maxGap       int
 	inconclusive []string
 	sample       map[string]interface{}
 }
@@ -342,7 +355,9 @@ func runPath(P *Program, pkg *ssa.Package, fn *ssa.Function, spec HarnessSpec, w
 				res.viol.Threads = len(e.threads) - 1
 			}
 		}()
+		e.progress()
 		res.steps = e.steps
+		res.maxGap = e.maxGap
 		res.asserts = e.asserts
 		res.assertsTotal = e.assertsTotal
 		res.covers = e.covers
@@ -458,7 +473,6 @@ func sortedKeys(m map[string]int) []string {
 	sort.Strings(ks)
 	return ks
 }
-
 
 // modJoin is the import path of a package given relative to the module root
 // ("." is the root package).
